@@ -29,6 +29,31 @@ PROPS = {
         engines=[('broker', dict(prop='C09'))],
         trusted=['asyncio transport/loop contract as implemented by harness FakeTransport/VirtualLoop (DESIGN.md 3c): connection_lost is reported once per transport'],
     ),
+    'C02': dict(
+        module='Hpfeeds.Props.C02', file='Hpfeeds/Props/C02.lean',
+        engines=[('broker', dict(prop='C02'))],
+        trusted=['asyncio transport/loop contract as implemented by harness FakeTransport/VirtualLoop (DESIGN.md 3c)', 'os.urandom nonce variety is decided by the monitor on the implementation only'],
+    ),
+    'C08': dict(
+        module='Hpfeeds.Props.C08', file='Hpfeeds/Props/C08.lean',
+        engines=[('broker', dict(prop='C08'))],
+        trusted=['asyncio transport/loop contract as implemented by harness FakeTransport/VirtualLoop (DESIGN.md 3c)'],
+    ),
+    'C10': dict(
+        module='Hpfeeds.Props.C10', file='Hpfeeds/Props/C10.lean',
+        engines=[('broker', dict(prop='C10'))],
+        trusted=['asyncio transport/loop contract as implemented by harness FakeTransport/VirtualLoop (DESIGN.md 3c)', 'CPU/memory exhaustion and hangs inside C code are outside the model (per-event watchdog only)'],
+    ),
+    'C14': dict(
+        module='Hpfeeds.Props.C14', file='Hpfeeds/Props/C14.lean',
+        engines=[('broker', dict(prop='C14'))],
+        trusted=['asyncio transport/loop contract as implemented by harness FakeTransport/VirtualLoop (DESIGN.md 3c)', 'a store answers all look-ups synchronously or all asynchronously within one run'],
+    ),
+    'C15': dict(
+        module='Hpfeeds.Props.C15', file='Hpfeeds/Props/C15.lean',
+        engines=[('broker', dict(prop='C15'))],
+        trusted=['asyncio transport/loop contract as implemented by harness FakeTransport/VirtualLoop (DESIGN.md 3c)', 'that asyncio calls pause_writing/resume_writing at the high/low-water marks is library behaviour'],
+    ),
     'C05': dict(
         module='Hpfeeds.Props.C05', file='Hpfeeds/Props/C05.lean',
         engines=[('codec', dict(sections=['roundtrip', 'readers']))],
